@@ -76,6 +76,20 @@ def run(chk):
         sph = rng.random() < 0.35
         wj, sph = any_world(rng, spherical=sph, lines=0.5, allow_mass_conserving=True)
         wj.pop("force surface temperature", None)
+        if wi % 4 == 0:
+            # an oceanic plate whose cooling model has several ridge segments separated by (oblique) transform faults
+            from wbgen import Gen
+            gg = Gen(rng)
+            for _try in range(40):
+                of = gg.area_feature("oc%d" % wi, sph, kinds=("oceanic plate",), size=(25 if sph else 9e5))
+                tms = [m for m in of.get("temperature models", []) if len(m.get("ridge coordinates", [])) >= 2]
+                if tms:
+                    of["temperature models"] = [tms[0]]
+                    tms[0].pop("operation", None)
+                    of.pop("min depth", None)
+                    of["max depth"] = 2.5e5
+                    wj["features"].append(of)
+                    break
         if sph:
             lons = []
 
